@@ -1,6 +1,7 @@
 package exec
 
 import (
+	"os"
 	"bytes"
 	"encoding/json"
 	"fmt"
@@ -150,6 +151,27 @@ func genCaseC07(t *rapid.T) *c07Case {
 }
 
 // envelope checks the shape of a response against the submitted text.
+// lookaheadFamily: is the message one of the errors whose position ggql takes from a node other than
+// a field (parse errors, operations, variable definitions, argument values, fragment spreads and
+// definitions)? Only those belong to the recorded finding KF-C07-lookahead-position; a field error
+// or any other message with an impossible position is a violation of its own.
+func lookaheadFamily(msg string) bool {
+	if strings.HasPrefix(msg, "parse error") {
+		return true
+	}
+	for _, part := range []string{"duplicate argument ", " is not an argument to ", "fragment spread cycle", "no subscriptions resolved", " not defined for fragment ",
+		"duplicate operation", " is not a valid 'if' value", "could not determine operation"} {
+		if strings.Contains(msg, part) {
+			return true
+		}
+	}
+	// variable errors end in " for <variable name>" and carry no path
+	if i := strings.LastIndex(msg, " for "); i > 0 && !strings.ContainsAny(msg[i+5:], " .") {
+		return true
+	}
+	return false
+}
+
 func envelope(res map[string]interface{}, text string) (msgs []string) {
 	bad := func(format string, args ...interface{}) { msgs = append(msgs, fmt.Sprintf(format, args...)) }
 	if res == nil {
@@ -236,18 +258,40 @@ func envelope(res map[string]interface{}, text string) (msgs []string) {
 				}
 				if line < 1 || col < 1 {
 					tag := ""
-					if line >= 2 {
+					if msg, _ := em["message"].(string); line >= 2 && lookaheadFamily(msg) {
 						tag = " [after-newline-lookahead]"
 					}
 					bad("errors[%d] location line %d column %d is not positive%s (message %q)", i, line, col, tag, em["message"])
 					continue
 				}
 				if line > len(lines) {
-					bad("errors[%d] location line %d is beyond the %d lines of the request [after-newline-lookahead] (message %q)", i, line, len(lines), em["message"])
+					tag := ""
+					if msg, _ := em["message"].(string); lookaheadFamily(msg) {
+						tag = " [after-newline-lookahead]"
+					}
+					bad("errors[%d] location line %d is beyond the %d lines of the request%s (message %q)", i, line, len(lines), tag, em["message"])
 					continue
 				}
 				if max := len(strings.TrimSuffix(lines[line-1], "\r")) + 2; col > max {
 					bad("errors[%d] location %d:%d is beyond the end of its line (%d bytes) (message %q)", i, line, col, max-2, em["message"])
+				}
+				// an error about a fragment definition lies on the line of that definition's header
+				// (asserted when the header 'fragment NAME on' stands on one line)
+				if msg, _ := em["message"].(string); strings.Contains(msg, " for fragment ") {
+					name := strings.TrimSpace(msg[strings.LastIndex(msg, " for fragment ")+len(" for fragment "):])
+					want := 0
+					for li, ln := range lines {
+						if k := strings.Index(ln, "fragment "+name+" on "); k >= 0 && !strings.Contains(ln[:k], "#") {
+							if want != 0 {
+								want = -1 // written twice: ambiguous
+								break
+							}
+							want = li + 1
+						}
+					}
+					if want > 0 && line != want {
+						bad("errors[%d] location line %d is not the line of the definition of fragment %s (line %d) (message %q)", i, line, name, want, msg)
+					}
 				}
 			}
 		}
@@ -446,6 +490,12 @@ func checkC07(cc *c07Case) (ds []hx.Discrepancy, info map[string]bool, res map[s
 		sig := ""
 		if strings.Contains(m, "[after-newline-lookahead]") {
 			sig = "KF-C07-lookahead-position"
+			if f := os.Getenv("C07_DUMP_KF"); f != "" {
+				if fh, err := os.OpenFile(f, os.O_APPEND|os.O_CREATE|os.O_WRONLY, 0o644); err == nil {
+					fmt.Fprintln(fh, m)
+					fh.Close()
+				}
+			}
 		}
 		add("envelope", sig, "%s%s", m, ctx())
 	}
